@@ -196,6 +196,40 @@ theorem close_shuts_down (c : Client) (hcur : c.current ≠ .shutdown) :
   | pendingReconnect => exact ⟨.stopped, by simp [Client.computeTransition, hf.1, hc], by simp [Client.finalTarget]; decide⟩
   | connected => exact ⟨.stopped, by simp [Client.computeTransition, hf.1, hc], by simp [Client.finalTarget]; decide⟩
 
+/-- **A start processed after a close is ignored** (it used to set the desired state back to Connected and revive a client
+    whose loop had not ended yet). -/
+theorem start_after_close_is_ignored (c : Client) (h : c.desired = .shutdown) : c.handleOp .start = c := by
+  simp [Client.handleOp, h]
+
+def isStopRequest : ClientOp → Bool
+  | .stop => true
+  | .stopWithDisconnect _ => true
+  | _ => false
+
+/-- **No request undoes a close** (partial: request sequences without a stop): once close has been requested the desired
+    state stays Shutdown whatever starts, closes and operations are processed afterwards.  What is missing: a *stop* processed
+    after the close overwrites the desired state with Stopped in `handle_incoming_operation`; both driver loops look at the
+    client (`computeTransition`, which `close_shuts_down` shows leads to Shutdown) after every single request, so they never
+    process a second request on a closed client - that is a fact about the loops, covered by the driver runs, not by this
+    model. -/
+theorem close_is_never_undone_partial (c : Client) (ops : List ClientOp) (h : c.desired = .shutdown)
+    (hns : ops.all (fun o => !isStopRequest o) = true) :
+    (ops.foldl Client.handleOp c).desired = .shutdown := by
+  induction ops generalizing c with
+  | nil => exact h
+  | cons o os ih =>
+    simp only [List.all_cons, Bool.and_eq_true] at hns
+    refine ih _ ?_ hns.2
+    cases o with
+    | start => simp [Client.handleOp, h]
+    | stop => simp [isStopRequest] at hns
+    | stopWithDisconnect d => simp [isStopRequest] at hns
+    | close => simp [Client.handleOp]
+    | publish p => simp only [Client.handleOp]; rw [(engStep_fields c _).2.1]; exact h
+
+example (e : Engine) : (({ eng := e, desired := .shutdown } : Client).handleOp .stop).desired = .stopped := by
+  simp [Client.handleOp, Client.applyError]
+
 /-- Shutdown is absorbing: the loop requests nothing further. -/
 theorem shutdown_is_final (c : Client) (hcur : c.current = .shutdown) : c.computeTransition = none := by
   simp [Client.computeTransition, hcur]
